@@ -45,7 +45,43 @@ func assemble(pieces []string, at int, ins string, reps int) string {
 // C14: output with a long padding inserted = output with a short marker inserted, the marker replaced
 // by the padding (nothing for a comment); both real tokenizers read the padded source alike and as
 // the model predicts (token shape).
+// c14ManyTags: many small tags (empty comments add nothing to the output) before and after a construct, for every
+// small amount of trailing text: the token count crosses whatever capacity the tokenizer reserved for this length at
+// some alignment of the construct. The output is the construct's output without the comments.
+func c14ManyTags(res *Result) {
+	constructs := []struct{ src, want string }{
+		{"x {{- a }} y", "xA1 y"}, {"x {{ a -}} y", "x A1y"}, {"x {%- if t %}T{% endif -%} y", "xTy"}, {"x {{ a }} y", "x A1 y"},
+		{"x {%- for i in one -%} L {%- endfor %} y", "xL y"},
+	}
+	for _, cs := range constructs {
+		for _, k := range []int{40, 250, 1100} {
+			for e := 0; e <= 24; e++ {
+				src := strings.Repeat("{##}", k) + cs.src + strings.Repeat("{##}", 4*k) + strings.Repeat("p", e)
+				res.Hist["stream:many-tags"]++
+				res.Evaluations++
+				eng := lexEngine()
+				c := Case{"stream": "many-tags", "construct": cs.src, "comments_before": k, "comments_after": 4 * k, "trailing_text": e}
+				if err := eng.RegisterString("t", src); err != nil {
+					res.add(Finding{Kind: "oracle", Where: "many-tags", Case: c, Expected: cs.want, Detail: "does not parse: " + err.Error()})
+					return
+				}
+				ctx := lexCtx()
+				ctx["one"] = []interface{}{1}
+				ctx["t"] = true
+				got, err := eng.Render("t", ctx)
+				want := cs.want + strings.Repeat("p", e)
+				if err != nil || got != want {
+					res.add(Finding{Kind: "oracle", Where: "many-tags", Case: c, Expected: want, Observed: got + errStr(err),
+						Detail: fmt.Sprintf("%d empty comments before and %d after the construct (source of %d bytes) change its output", k, 4*k, len(src))})
+					return
+				}
+			}
+		}
+	}
+}
+
 func runC14(cases string, res *Result) {
+	c14ManyTags(res)
 	readCases(cases, func(c Case) {
 		if _, has := c["src"]; has {
 			src := c.hexs("src")
